@@ -1,0 +1,80 @@
+//go:build verif
+
+package erc20
+
+// Contracts for the deductive checker in /verif (comment-only; compiled only with -tags verif).
+// C10, IBC middleware: the underlying application's callback runs first, exactly once and with the middleware's own arguments;
+// the keeper's conversion callback runs only after a successful underlying acknowledgement (OnRecvPacket) resp. after the
+// underlying callback returned nil, and its result is what the middleware returns.
+// The underlying application (ICS-20 transfer, possibly wrapped by further middleware) is specified in
+// verif/specs/c10r/75_ibc_app.spec (assumption A-ibc-app).
+
+/*@
+alias ChanAckM github.com/cosmos/ibc-go/v7/modules/core/04-channel/types.Acknowledgement
+alias FTDataM github.com/cosmos/ibc-go/v7/modules/apps/transfer/types.FungibleTokenPacketData
+
+// A-ibc-app for OnRecvPacket (here and not in the lib spec because it is stated over the packet decoding functions ft_* declared with
+// Keeper.OnRecvPacket): bank balances / supply may change, the EVM state and the erc20 registry do not; a successful
+// acknowledgement means the received coin has been credited to the packet's recipient.
+func (github.com/cosmos/ibc-go/v7/modules/core/05-port/types.IBCModule).OnRecvPacket
+    params app, ctx, packet, relayer
+    modifies bank_bal, bank_supply, ibc_app_calls, ibc_app_last
+    ensures counted: ibc_app_calls == old(ibc_app_calls) + 1 && ibc_app_last == app_recv(ctx, packet, relayer)
+    ensures credited: result != nil && ack_success(result) ==> bank_bal[acc_of_bytes(ft_recipient(packet))][ft_coin(packet.SourcePort, packet.SourceChannel,
+            packet.DestinationPort, packet.DestinationChannel, ft_decode(packet.Data).Denom, ft_decode(packet.Data).Amount).Denom] > 0
+
+func (IBCMiddleware).OnRecvPacket
+    let A = ret(IBCModule.OnRecvPacket, 1, 0)
+    requires wired: im.Module != nil && im.Module.app != nil
+    requires denom_index: forall dd string :: dm_has[dd] && tp_has[dm_val[dd]] ==> tp_val[dm_val[dd]].Denom == dd
+    modifies bank_bal, bank_supply, evm_state, tp_has, am_has, dm_has, ibc_app_calls, ibc_app_last
+    call IBCModule.OnRecvPacket requires first_same: ctx == old(ctx) && packet == old(packet) && relayer == old(relayer)
+            && ibc_app_calls == old(ibc_app_calls) && bank_bal == old(bank_bal) && bank_supply == old(bank_supply) && evm_state == old(evm_state)
+    call Keeper.OnRecvPacket requires after_success: ack == A && A != nil && ack_success(A) && ctx == old(ctx) && packet == old(packet)
+            && ibc_app_calls == old(ibc_app_calls) + 1
+    ensures c10_app_once: ibc_app_calls == old(ibc_app_calls) + 1 && ibc_app_last == app_recv(old(ctx), old(packet), old(relayer))
+    ensures c10_forwarded: A == nil ==> result == nil
+    ensures c10_error_ack: A != nil && !ack_success(A) ==> result == A
+    ensures c10_converted: A != nil && ack_success(A) ==> result == ret(Keeper.OnRecvPacket, 1, 0)
+    // without a successful underlying acknowledgement nothing is converted: EVM state and registry are untouched, bank state is what the
+    // underlying application left
+    ensures c10_no_conversion: A == nil || !ack_success(A) ==> evm_state == old(evm_state) && tp_has == old(tp_has) && am_has == old(am_has) && dm_has == old(dm_has)
+
+// OnAcknowledgementPacket: acknowledgement and packet data are decoded first (an undecodable one is refused before anything runs),
+// then the underlying application's callback runs with the middleware's arguments; only when it returned nil the keeper's refund
+// conversion runs, on the decoded data and acknowledgement, and its result is returned.
+func (IBCMiddleware).OnAcknowledgementPacket
+    let E = ret(IBCModule.OnAcknowledgementPacket, 1, 0)
+    requires wired: im.Module != nil && im.Module.app != nil
+    requires denom_index: forall dd string :: dm_has[dd] && tp_has[dm_val[dd]] ==> tp_val[dm_val[dd]].Denom == dd
+    modifies bank_bal, bank_supply, evm_state, tp_has, am_has, dm_has, ibc_app_calls, ibc_app_last
+    call IBCModule.OnAcknowledgementPacket requires first_same: ctx == old(ctx) && packet == old(packet) && acknowledgement == old(acknowledgement)
+            && relayer == old(relayer) && ibc_app_calls == old(ibc_app_calls) && bank_bal == old(bank_bal) && bank_supply == old(bank_supply)
+            && evm_state == old(evm_state)
+    call Keeper.OnAcknowledgementPacket requires after_nil: E == nil && ctx == old(ctx) && packet == old(packet) && data == ft_decode(old(packet).Data)
+            && ack == ack_decode(old(acknowledgement)) && ibc_app_calls == old(ibc_app_calls) + 1
+    ensures c10_app_at_most_once: ibc_app_calls == old(ibc_app_calls) || (ibc_app_calls == old(ibc_app_calls) + 1
+            && ibc_app_last == app_ack(old(ctx), old(packet), old(acknowledgement), old(relayer)))
+    ensures c10_app_ran: result == nil ==> ibc_app_calls == old(ibc_app_calls) + 1 && E == nil
+    ensures c10_app_error: ibc_app_calls == old(ibc_app_calls) + 1 && E != nil ==> result == E
+    ensures c10_converted: ibc_app_calls == old(ibc_app_calls) + 1 && E == nil ==> result == ret(Keeper.OnAcknowledgementPacket, 1, 0)
+    ensures c10_refused_early: ibc_app_calls == old(ibc_app_calls) ==> result != nil && bank_bal == old(bank_bal) && bank_supply == old(bank_supply)
+    ensures c10_no_conversion: ibc_app_calls == old(ibc_app_calls) || E != nil ==> evm_state == old(evm_state) && tp_has == old(tp_has) && am_has == old(am_has) && dm_has == old(dm_has)
+
+func (IBCMiddleware).OnTimeoutPacket
+    let E = ret(IBCModule.OnTimeoutPacket, 1, 0)
+    requires wired: im.Module != nil && im.Module.app != nil
+    requires denom_index: forall dd string :: dm_has[dd] && tp_has[dm_val[dd]] ==> tp_val[dm_val[dd]].Denom == dd
+    modifies bank_bal, bank_supply, evm_state, tp_has, am_has, dm_has, ibc_app_calls, ibc_app_last
+    call IBCModule.OnTimeoutPacket requires first_same: ctx == old(ctx) && packet == old(packet) && relayer == old(relayer)
+            && ibc_app_calls == old(ibc_app_calls) && bank_bal == old(bank_bal) && bank_supply == old(bank_supply) && evm_state == old(evm_state)
+    call Keeper.OnTimeoutPacket requires after_nil: E == nil && ctx == old(ctx) && packet == old(packet) && data == ft_decode(old(packet).Data)
+            && ibc_app_calls == old(ibc_app_calls) + 1
+    ensures c10_app_at_most_once: ibc_app_calls == old(ibc_app_calls) || (ibc_app_calls == old(ibc_app_calls) + 1
+            && ibc_app_last == app_timeout(old(ctx), old(packet), old(relayer)))
+    ensures c10_app_ran: result == nil ==> ibc_app_calls == old(ibc_app_calls) + 1 && E == nil
+    ensures c10_app_error: ibc_app_calls == old(ibc_app_calls) + 1 && E != nil ==> result == E
+    ensures c10_converted: ibc_app_calls == old(ibc_app_calls) + 1 && E == nil ==> result == ret(Keeper.OnTimeoutPacket, 1, 0)
+    ensures c10_refused_early: ibc_app_calls == old(ibc_app_calls) ==> result != nil && bank_bal == old(bank_bal) && bank_supply == old(bank_supply)
+    ensures c10_no_conversion: ibc_app_calls == old(ibc_app_calls) || E != nil ==> evm_state == old(evm_state) && tp_has == old(tp_has) && am_has == old(am_has) && dm_has == old(dm_has)
+@*/
